@@ -41,8 +41,10 @@ func (g *c03graph) reach(s int) uint16 {
 
 var c03uids = func() [8]types.EntityUID {
 	var u [8]types.EntityUID
+	// same ids under different types, so that a traversal keyed on the id alone (or taking
+	// a type-based short cut) is exposed: U::"0", G::"0", T::"0", U::"1", G::"1", ...
 	for i := range u {
-		u[i] = types.NewEntityUID("U", types.String(fmt.Sprint(i)))
+		u[i] = types.NewEntityUID(types.EntityType([]string{"U", "G", "T"}[i%3]), types.String(fmt.Sprint(i/3)))
 	}
 	return u
 }()
@@ -69,7 +71,7 @@ func (g *c03graph) describe() map[string]any {
 	for i := 0; i < g.n; i++ {
 		for j := 0; j < g.n; j++ {
 			if g.adj[i]&(1<<j) != 0 {
-				edges = append(edges, fmt.Sprintf("U::\"%d\" -> parent U::\"%d\"", i, j))
+				edges = append(edges, fmt.Sprintf("node %d -> parent node %d", i, j))
 			}
 		}
 	}
@@ -153,11 +155,11 @@ func (r *c03runner) report(form string, s int, targets uint16, got bool, bad str
 		} else if len(bad) > 5 && bad[:5] == "panic" {
 			kind = "panic"
 		}
-		r.w.Violation(form+": "+kind, fmt.Sprintf("%s on start U::\"%d\" targets %v: %s (expected %v)", form, s, ts, bad, want), wit)
+		r.w.Violation(form+": "+kind, fmt.Sprintf("%s on start node %d targets %v: %s (expected %v)", form, s, ts, bad, want), wit)
 		return
 	}
 	wit["got"] = got
-	r.w.Violation(fmt.Sprintf("%s: got=%v want=%v", form, got, want), fmt.Sprintf("%s with start U::\"%d\", targets %v answers %v, reachability says %v; graph %v", form, s, ts, got, want, wit["parent_edges"]), wit)
+	r.w.Violation(fmt.Sprintf("%s: got=%v want=%v", form, got, want), fmt.Sprintf("%s with start node %d, targets %v answers %v, reachability says %v; graph %v", form, s, ts, got, want, wit["parent_edges"]), wit)
 }
 
 func uidNode(i int) ast.IsNode { return ast.NodeValue{Value: c03uids[i]} }
@@ -203,10 +205,10 @@ func (r *c03runner) allSubsets() {
 				}
 			}
 			// `is T in` with matching and non-matching type
-			got, bad := r.evalBool(ast.NodeTypeIsIn{NodeTypeIs: ast.NodeTypeIs{Left: uidNode(s), EntityType: "U"}, Entity: ast.NodeValue{Value: types.NewSet(vals...)}})
+			got, bad := r.evalBool(ast.NodeTypeIsIn{NodeTypeIs: ast.NodeTypeIs{Left: uidNode(s), EntityType: c03uids[s].Type}, Entity: ast.NodeValue{Value: types.NewSet(vals...)}})
 			r.w.Evals(1)
 			if bad != "" || got != want {
-				r.report("a is U in set", s, sub, got, bad, want)
+				r.report("a is <own type> in set", s, sub, got, bad, want)
 			}
 			got, bad = r.evalBool(ast.NodeTypeIsIn{NodeTypeIs: ast.NodeTypeIs{Left: uidNode(s), EntityType: "Other"}, Entity: ast.NodeValue{Value: types.NewSet(vals...)}})
 			r.w.Evals(1)
@@ -232,7 +234,7 @@ func (r *c03runner) scopes() {
 				{"scope principal in E", &ast.Policy{Effect: ast.EffectPermit, Principal: ast.ScopeTypeIn{Entity: c03uids[t]}, Action: ast.ScopeTypeAll{}, Resource: ast.ScopeTypeAll{}}, want},
 				{"scope action in E", &ast.Policy{Effect: ast.EffectPermit, Principal: ast.ScopeTypeAll{}, Action: ast.ScopeTypeIn{Entity: c03uids[t]}, Resource: ast.ScopeTypeAll{}}, want},
 				{"scope resource in E", &ast.Policy{Effect: ast.EffectPermit, Principal: ast.ScopeTypeAll{}, Action: ast.ScopeTypeAll{}, Resource: ast.ScopeTypeIn{Entity: c03uids[t]}}, want},
-				{"scope principal is U in E", &ast.Policy{Effect: ast.EffectPermit, Principal: ast.ScopeTypeIsIn{Type: "U", Entity: c03uids[t]}, Action: ast.ScopeTypeAll{}, Resource: ast.ScopeTypeAll{}}, want},
+				{"scope principal is <own type> in E", &ast.Policy{Effect: ast.EffectPermit, Principal: ast.ScopeTypeIsIn{Type: c03uids[s].Type, Entity: c03uids[t]}, Action: ast.ScopeTypeAll{}, Resource: ast.ScopeTypeAll{}}, want},
 				{"scope resource is Other in E", &ast.Policy{Effect: ast.EffectPermit, Principal: ast.ScopeTypeAll{}, Action: ast.ScopeTypeAll{}, Resource: ast.ScopeTypeIsIn{Type: "Other", Entity: c03uids[t]}}, false},
 			}
 			for _, pc := range pols {
@@ -318,6 +320,9 @@ func C03(c *mon.Ctx) {
 				r := newC03runner(w, g)
 				r.allSubsets()
 				r.scopes()
+				if n <= 3 {
+					r.batchScopes()
+				}
 			}
 			w.Count(fmt.Sprintf("digraphs n=%d with set targets and scope forms", n))
 		})
